@@ -265,6 +265,54 @@ func (m *Monitors) c08(o *obs) {
 		id = optStr(o.op, "src", "")
 		prefix = id + "/"
 	}
+	// (0) send-time guards: a send that succeeded must have been allowed by the light client the op
+	// carried (status, latest height, latest consensus timestamp) and, for v2, by the block time window.
+	// Only evaluated on fields the op really carries (added by the coordinator after an independently
+	// written off-by-one in the v2 latest-timestamp guard was caught by the correspondence alone).
+	if lcv, ok := o.op["lc"].(map[string]any); ok {
+		if st, ok := lcv["st"].(string); ok && st != "Active" {
+			m.viol(o, "C08", "guard-status", "a send succeeded through a light client that is not Active", lib.M{"id": id, "status": st})
+		}
+		if lh, ok := lcv["lh"].(map[string]any); ok {
+			lr, okr := toNum(lh["r"])
+			lhh, okh := toNum(lh["h"])
+			if okr && okh && lr == 0 && lhh == 0 {
+				m.viol(o, "C08", "guard-zero-height", "a send succeeded although the client's latest height is zero", lib.M{"id": id})
+			}
+			ts, okts := toNum(lcv["ts"])
+			tt, oktt := toNum(o.op["tt"])
+			if o.f == "sendV2" && okts && oktt {
+				if ts/1_000_000_000 >= tt {
+					m.viol(o, "C08", "guard-elapsed-v2", "a v2 send succeeded although its timeout had already passed according to the client's latest consensus state",
+						lib.M{"id": id, "timeout_s": lib.U(tt), "latest_consensus_ns": lib.U(ts)})
+				}
+				if nowv, ok := o.op["now"].(map[string]any); ok {
+					if nt, ok := toNum(nowv["t"]); ok && tt < 1<<33 && nt < 1<<62 {
+						if tt*1_000_000_000 <= nt {
+							m.viol(o, "C08", "guard-blocktime-v2", "a v2 send succeeded although its timeout is not strictly after the block time", lib.M{"id": id, "timeout_s": lib.U(tt), "block_ns": lib.U(nt)})
+						}
+						if tt*1_000_000_000 > nt+24*3600*1_000_000_000 {
+							m.viol(o, "C08", "guard-maxdelta-v2", "a v2 send succeeded although its timeout is more than the maximum timeout delta ahead", lib.M{"id": id, "timeout_s": lib.U(tt), "block_ns": lib.U(nt)})
+						}
+					}
+				}
+			}
+			if o.f == "sendV1" && okts && oktt && okr && okh {
+				if th, ok := o.op["th"].(map[string]any); ok {
+					thr, ok1 := toNum(th["r"])
+					thh, ok2 := toNum(th["h"])
+					if ok1 && ok2 {
+						heightElapsed := !(thr == 0 && thh == 0) && (lr > thr || (lr == thr && lhh >= thh))
+						tsElapsed := tt != 0 && ts >= tt
+						if heightElapsed || tsElapsed {
+							m.viol(o, "C08", "guard-elapsed-v1", "a v1 send succeeded although its timeout had already passed according to the client's latest consensus state",
+								lib.M{"id": id, "timeout_height": lib.U(thr) + "-" + lib.U(thh), "timeout_ns": lib.U(tt), "latest_height": lib.U(lr) + "-" + lib.U(lhh), "latest_consensus_ns": lib.U(ts)})
+						}
+					}
+				}
+			}
+		}
+	}
 	seq, err := strconv.ParseUint(o.ret, 10, 64)
 	// (a) returned sequences per id are 1,2,3,... (v1 and v2 share the counter of an id)
 	if want := m.lastSend[id] + 1; err != nil || seq != want {
